@@ -107,7 +107,7 @@ def ref_cipher(ref, name, key, iv, data, enc, aad=None, tagbytes=16, ctrbits=128
         key = key + key[:8]
     mode = name.split("-", 1)[1]
     if mode == "ecb":
-        return ref.try_out("CIPHER", alg=alg + "/ECB/NoPadding", dir="enc" if enc else "dec", key=key, iv=b"", **{"in": data})
+        return ref.try_out("BLOCK", alg=alg, dir="enc" if enc else "dec", key=key, **{"in": data}) if data else b""
     if mode == "cbc":
         return ref.try_out("CIPHER", alg=alg + "/CBC/NoPadding", dir="enc" if enc else "dec", key=key, iv=iv, **{"in": data})
     if mode == "cbc-pad":
